@@ -188,7 +188,7 @@ Theorem failed_has_no_victims : forall w o, In o (attempt w) -> o_ok o = false -
 Proof.
   intros w o Hin Hok. unfold attempt in Hin. destruct (checkPreconditions w); [|destruct Hin as [<-|[]]; reflexivity].
   unfold tryPreemption, tryPreemptionF in Hin.
-  destruct (findVictims w) as [pv|]; [|destruct Hin as [<-|[]]; reflexivity].
+  destruct (findVictims w) as [pv|]; [|destruct Hin as [<-|[]]; reflexivity]. unfold tryPreemptionPV in Hin.
   destruct (negb (checkGuarantees w pv)); [destruct Hin as [<-|[]]; reflexivity|].
   destruct (filter _ (node_checks w pv)) as [|c0 ct]; [destruct Hin as [<-|[]]; reflexivity|].
   apply in_map_iff in Hin as (c & <- & _). unfold tryWith in *. destruct (answer w c) as [s idx].
